@@ -131,8 +131,8 @@ func runValidate(r *Rng, n int, w io.Writer, stats map[string]int) {
 			validateCase(w, o, stats)
 		}
 	}
-	for _, e := range []string{"", "NoSchedule", "NoExecute", "PreferNoSchedule", "noschedule", "Bogus", " "} {
-		for _, l := range []string{"", "on-demand", "spot", "Spot", "ondemand", " "} {
+	for _, e := range []string{"", "NoSchedule", "NoExecute", "PreferNoSchedule", "noschedule", "NOEXECUTE", "NoSchedule ", "Bogus", " "} {
+		for _, l := range []string{"", "on-demand", "spot", "Spot", "SPOT", "On-Demand", "on-demand ", "ondemand", "on_demand", " "} {
 			o := b
 			o.TaintEffect = v1.TaintEffect(e)
 			o.AWS.Lifecycle = l
